@@ -136,6 +136,7 @@ ATOMS = {
     "fstring_pair": dict(codes=[], enable=["use_fstrings"], lines=["print(\"%s and %s {n}\" % pair)"], simple=True),
     "fstring_width": dict(codes=[], enable=["use_fstrings"], lines=["print(\"%5d|%-3s\" % ({n}, q))"], simple=True),
     "fstring_width_s": dict(codes=[], enable=["use_fstrings"], lines=["print(\"item %8s|%-6s| {n}\" % (q, q))", "print(\"%4s\" % p)"], simple=False),
+    "fstring_width_plain": dict(codes=[], enable=["use_fstrings"], lines=["print(\"%10s|%5d| {n}\" % (q, p))", "print(\"%6s|\" % q)", "print(\"%3s|%3s\" % (q, pair))"], simple=False),
     "fstring_pct": dict(codes=[], enable=["use_fstrings"], lines=["print(\"100%% of %s {n}\" % q)"], simple=True),
     "fstring_dict": dict(codes=[], enable=["use_fstrings"], lines=["print(\"%(a)s {n}\" % {{\"a\": p}})"], simple=True),
     "fstring_repr": dict(codes=[], enable=["use_fstrings"], lines=["print(\"%r and %s {n}\" % (q, p))"], simple=True),
